@@ -31,6 +31,7 @@ import ast
 import z3
 
 from .values import *  # noqa
+from .values import VNone  # noqa
 from .core import *  # noqa
 
 MAX_WORD_ID = 26
@@ -192,6 +193,8 @@ def _build(I, hint, shape, pos, maxwords):
         return d
     if shape == 0:
         return VInt(I.path.fresh("%s_a%s" % (hint, pos), z3.IntSort()))
+    if shape is None:
+        return VNone()          # the JSON null atom (a key that is present and holds null)
     raise Unsupported("jtree shape element %r" % (shape,))
 
 
